@@ -20,6 +20,13 @@ func FaultPoint(site string) bool {
 	return FaultHook(site)
 }
 
+// AllocLowest is a tuning knob of the simulated runs ("buggify"): when set, the
+// number allocators of the journal library start every search at the bottom
+// instead of where the last one ended, so a number that was just freed is
+// handed out again at once. Any free number is a legal answer of an allocator;
+// nothing may depend on the next-fit order.
+var AllocLowest bool
+
 // LockHook observes lockmap events: kind 0 = wants, 1 = acquired, 2 = releases.
 var LockHook func(task *Task, kind int, addr uint64)
 
